@@ -509,6 +509,9 @@ def plan_C07(tier):
         q = shape_script_query(7, lookup_shapes()[0], ["GO", "F", "F"], "lookup", 1, tight=True, timeout=1500)
         q.mem_gb = 6
         qs.append(q)
+        # the strlen-based lookup and next_ensure on one shape each
+        qs.append(shape_script_query(7, lookup_shapes()[3], ["GO", "FS"], "lookup", 1, tight=True, timeout=1500))
+        qs.append(shape_script_query(7, lookup_shapes()[3], ["GO", "NE"], "lookup", 1, tight=True, timeout=1500))
     # arbitrary valid objects, symbolic names
     if tier == "quick":
         qs.append(script_query(7, ["GO", "F"], 8, 1, 1, J=4))
@@ -1018,9 +1021,9 @@ def reuse_queries(tier):
                 continue
             seen.add(node.label())
             full = shapes.full_script(node)
-            cuts = range(1, len(full)) if tier != "quick" else [k for k in range(1, len(full)) if full[k - 1] in ("GO", "GA", "N")]
+            cuts = list(range(1, len(full))) if tier != "quick" else [k for k in range(1, len(full)) if full[k - 1] in ("GO", "GA", "N")]
             for cut in cuts:
-                for op in (("RS",) if tier == "quick" else ("RS", "VF")):
+                for op in ((("RS", "VF") if cut == cuts[len(cuts) // 2] else ("RS",)) if tier == "quick" else ("RS", "VF")):
                     s = full[:cut] + [op] + full
                     q = shape_script_query(12, node, s, "reuse@%d" % cut, root)
                     qs.append(q)
